@@ -262,6 +262,28 @@ func c20BinRun(t *testing.T, p c20BinPlan) (res vfResult) {
 		}
 		time.Sleep(5 * time.Millisecond)
 	}
+	// the ports given on the command line are the ports served: plain HTTP on one, TLS on the other
+	hc := &http.Client{Timeout: 5 * time.Second}
+	if resp, err := hc.Get(fmt.Sprintf("http://127.0.0.1:%d/", httpPort)); err != nil {
+		res.failf("http-port-not-served", "kamal-proxy run --http-port %d: GET http://127.0.0.1:%d/ failed: %v", httpPort, httpPort, err)
+		return
+	} else {
+		resp.Body.Close()
+		if resp.StatusCode != http.StatusNotFound {
+			res.failf("http-port-not-served", "kamal-proxy run --http-port %d with nothing deployed: GET / got %d, want 404", httpPort, resp.StatusCode)
+			return
+		}
+	}
+	if resp, err := hc.Get(fmt.Sprintf("http://127.0.0.1:%d/", httpsPort)); err == nil {
+		resp.Body.Close()
+		if resp.StatusCode != http.StatusBadRequest { // net/http's answer to plain HTTP on a TLS port
+			res.failf("https-port-not-tls", "kamal-proxy run --https-port %d: a plain-HTTP request to that port got %d, want 400 (client sent an HTTP request to an HTTPS server)", httpsPort, resp.StatusCode)
+			return
+		}
+	} else {
+		res.failf("https-port-not-served", "kamal-proxy run --https-port %d: connecting to that port failed: %v", httpsPort, err)
+		return
+	}
 	m := map[string]*c20MSvc{}
 	errors := 0
 	for i, c := range p.Cmds {
